@@ -266,6 +266,9 @@ def check(prog, rep):
     c04.check(prog, sub)
     for ob in sub.rules[0].obs:
         name = ob.key.split("|")[1] if "|" in ob.key else ob.key
+        if ob.key == "selection-is-history-free":
+            r5.add(ob.key, ob.ok, ob.what, ob.where)
+            continue
         if name.startswith("H") or not ob.ok:
             if name.startswith("H") or ob.key.startswith(("moved-wrongly|H", "left-behind|H")):
                 r5.add(ob.key, ob.ok, ob.what, ob.where)
